@@ -69,8 +69,11 @@ if (src / 'notes.md').exists():
     meta['needs'] = (src / 'notes.md').read_text()[:3000]
 meta['caught_by'] = [p for p, r in meta['checks'].items() if r['rc'] == 1]
 old = dst / 'meta.json'
-if old.exists():        # re-evaluation after a check was strengthened: keep the first verdict
-    meta['first_version'] = json.loads(old.read_text()).get('first_version', 'caught')
+if old.exists():        # re-evaluation after a check was strengthened: keep the first verdict (and the author's notes)
+    prev = json.loads(old.read_text())
+    meta['first_version'] = prev.get('first_version', 'caught')
+    if not meta.get('needs') and prev.get('needs'):
+        meta['needs'] = prev['needs']
 else:
     meta['first_version'] = 'caught' if meta['caught_by'] else 'missed'
 (dst / 'meta.json').write_text(json.dumps(meta, indent=1))
